@@ -76,6 +76,9 @@ func checkSeq(ctx *pbt.Ctx, c SeqCase) error {
 	tx := ref.ToLib(m)
 	before := append([]byte{}, tx.Bytes()...)
 	eng := interpreter.NewEngine()
+	// the option values are built once per case and handed to every call that needs them
+	libexec.SetPool(libexec.NewOptPool())
+	defer libexec.SetPool(nil)
 	if len(c.Order)%2 == 0 { // the engine has been used before, without a transaction and with a failing script
 		one := bscript.NewFromBytes([]byte{0x51})
 		_ = eng.Execute(interpreter.WithScripts(one, bscript.NewFromBytes([]byte{0x51})))
